@@ -390,7 +390,7 @@ def triage(prop, cands, binaries, max_groups=24):
 ELEMS = ['ETriv', 'ETr', 'ENonTr', 'ENonTrX']
 VEC_ALL = [e + '_' + k for e in ELEMS for k in ('basic', 'mixed', 'limits')] + ['ETrivS_overlap', 'Arith_basic']
 VEC_HOOKS = [e + '_' + k for e in ('ETr', 'ENonTr', 'ENonTrX') for k in ('basic', 'mixed', 'limits')]
-VEC_LIMITS = [e + '_limits' for e in ELEMS] + [e + '_basic' for e in ELEMS]
+VEC_LIMITS = [e + '_limits' for e in ELEMS] + [e + '_basic' for e in ELEMS] + ['ETriv_mixed', 'ETr_mixed', 'ENonTr_mixed']
 VEC_SMALL = [e + '_' + k for e in ELEMS for k in ('basic', 'mixed')] + ['ETrivS_overlap']
 
 
